@@ -170,6 +170,9 @@ def spec_builtin(I, st, name, args, kwargs, node):
         from . import asyncio_model
         which = node.args[0].value if node.args else "time"
         return asyncio_model.clock_value(I, st, which, old=st.in_old and st.old_heap is None)
+    if name == "log_factory_restored":
+        from . import asyncio_model
+        return mkbool(asyncio_model.log_factory_is_entry(I, st))
     if name == "INF":
         return mkreal(INF)
     if name == "null":
